@@ -27,6 +27,9 @@ fn merged(pid: &str, tier: &str, seed: u64, parts: Vec<Report>) -> Report {
 
 // =================================================================== C08
 
+/// after a lost wake-up was reported, further thread-hop cases are skipped (each would cost the detection delay again)
+static HOP_DISABLED: std::sync::atomic::AtomicBool = std::sync::atomic::AtomicBool::new(false);
+
 const BUF_SIZES: [usize; 10] = [1, 2, 3, 7, 64, 1000, 4096, 8192, 65536, 0];
 
 fn payload_plan(rng: &mut Rng, n: usize, for_blocking_bridge: bool) -> Plan {
@@ -175,6 +178,14 @@ pub(crate) fn c08_case(rep: &mut Report, seed: u64, idx: u64, tier: &str) {
             })
         } else {
             let sz = sizes.clone();
+            // every 4th blocking consumption of an async payload changes threads half-way: the stream is read on one thread until
+            // the first payload bytes have arrived, then handed to another thread that reads the rest (the reader is Send)
+            let hop = kind == 2 && idx % 4 == 2 && !HOP_DISABLED.load(std::sync::atomic::Ordering::Relaxed);
+            if hop {
+                rep.count("thread_hops", 1);
+            }
+            let head_len = head.len();
+            let watch = shared.clone();
             // the blocking bridge parks the thread in block_on: run it on a helper thread with a generous watchdog
             let (tx, rx) = std::sync::mpsc::channel();
             std::thread::Builder::new()
@@ -187,6 +198,60 @@ pub(crate) fn c08_case(rep: &mut Report, seed: u64, idx: u64, tier: &str) {
                         let mut i = 0usize;
                         let mut zeros = 0u32;
                         let mut interrupts = 0u32;
+                        if hop {
+                            // first leg on this thread: up to and including the first read that delivers payload bytes
+                            loop {
+                                let k = sz[i % sz.len()].max(1);
+                                i += 1;
+                                match rd.read(&mut buf[..k]) {
+                                    Ok(0) => break,
+                                    Ok(n) => {
+                                        out.extend_from_slice(&buf[..n]);
+                                        if out.len() > head_len {
+                                            break;
+                                        }
+                                    }
+                                    Err(e) if e.kind() == ErrorKind::Interrupted && interrupts < 100_000 => interrupts += 1,
+                                    Err(e) => return Err(format!("stream error {:?} at offset {}", e.kind(), out.len())),
+                                }
+                            }
+                            // second leg on another thread
+                            let (tx2, rx2) = std::sync::mpsc::channel();
+                            let sz2 = sz.clone();
+                            std::thread::spawn(move || {
+                                let mut rd = rd;
+                                let mut out = out;
+                                let mut buf = vec![0u8; 65536];
+                                let mut zeros = 0u32;
+                                let mut i = i;
+                                let mut interrupts = 0u32;
+                                let r = loop {
+                                    let k = sz2[i % sz2.len()].max(1);
+                                    i += 1;
+                                    match rd.read(&mut buf[..k]) {
+                                        Ok(0) => {
+                                            zeros += 1;
+                                            if zeros == 3 {
+                                                break Ok((out, zeros));
+                                            }
+                                        }
+                                        Ok(n) => {
+                                            if zeros > 0 {
+                                                break Err(format!("data after end-of-stream at offset {}", out.len()));
+                                            }
+                                            out.extend_from_slice(&buf[..n]);
+                                        }
+                                        Err(e) if e.kind() == ErrorKind::Interrupted && interrupts < 100_000 => interrupts += 1,
+                                        Err(e) => break Err(format!("stream error {:?} at offset {}", e.kind(), out.len())),
+                                    }
+                                };
+                                let _ = tx2.send(r);
+                            });
+                            return match rx2.recv() {
+                                Ok(r) => r,
+                                Err(_) => Err("stream error: the second thread ended without a result (panic)".to_string()),
+                            };
+                        }
                         loop {
                             let k = sz[i % sz.len()];
                             i += 1;
@@ -218,11 +283,30 @@ pub(crate) fn c08_case(rep: &mut Report, seed: u64, idx: u64, tier: &str) {
                     let _ = tx.send(res);
                 })
                 .unwrap();
-            match rx.recv_timeout(std::time::Duration::from_secs(300)) {
-                Ok(r) => r,
-                Err(_) => {
-                    rep.inconclusive(format!("watchdog: blocking stream consumption did not finish within 300 s ({label})"));
-                    return;
+            // bounded progress instead of "eventually": once the source has signalled readiness (a helper thread called wake()),
+            // the consumer has to poll it again; a consumer that has not done so 20 s after the signal has lost the wake-up
+            // (a parked thread nobody will unpark). Anything else that exceeds the watchdog is inconclusive.
+            let mut waited = 0u64;
+            loop {
+                match rx.recv_timeout(std::time::Duration::from_secs(5)) {
+                    Ok(r) => break r,
+                    Err(_) => {
+                        waited += 5;
+                        let (wakes, polls_since, secs) = watch.wake_state();
+                        if wakes > 0 && polls_since == 0 && secs > 20.0 {
+                            HOP_DISABLED.store(true, std::sync::atomic::Ordering::Relaxed);
+                            rep.violation(
+                                "C08:lost-wakeup",
+                                format!("{label}{}: the payload source signalled readiness {secs:.0} s ago (wake-up #{wakes}) and was never polled again: the consuming thread is parked and the stream never ends", if hop { " (stream handed to a second thread after the first payload bytes)" } else { "" }),
+                                replay.clone(),
+                            );
+                            return;
+                        }
+                        if waited >= 300 {
+                            rep.inconclusive(format!("watchdog: blocking stream consumption did not finish within 300 s ({label})"));
+                            return;
+                        }
+                    }
                 }
             }
         };
